@@ -168,6 +168,46 @@ def wildcard_shadow_cases(rng, _n):
     return cases
 
 
+def guard_temp_cases(rng, _n):
+    """Field paths that go through a guard-returning method (`RefCell::borrow_mut`, `Mutex::lock`): every field assertion must
+    release what its path borrowed before the next one runs, whatever the kinds and the order of the two patterns.
+    All values match: every assertion must return."""
+    import tgen
+    cases = []
+    k = 0
+    decl = ("#[derive(Debug)] pub struct In { pub s: String, pub n: i32 }\n"
+            "#[derive(Debug)] pub struct W { pub c: std::cell::RefCell<In>, pub m: std::sync::Mutex<In> }\n"
+            "pub struct Pre(pub &'static str);\nimpl Like<Pre> for String { fn like(&self, p: &Pre) -> bool { self.starts_with(p.0) } }")
+    adt = lambda ctor, names, vals: "(adt %s (names %s) (vals %s))" % (tgen.hexs(ctor), " ".join(tgen.hexs(n) for n in names), " ".join(vals))
+    inner = adt("In", ["s", "n"], ["(str %s)" % tgen.hexs("abc"), "(int 1)"])
+    sx = adt("W", ["c", "m"], [inner, inner])
+    val = 'W { c: std::cell::RefCell::new(In { s: "abc".to_string(), n: 1 }), m: std::sync::Mutex::new(In { s: "abc".to_string(), n: 1 }) }'
+    # (no closure on the String: after a field operation a closure gets the place by value - the open finding C09 moves:place/closure)
+    spats = ['"abc"', '== "abc"', '!= "x"', '=~ Pre("ab")', '=~ "a.c"']
+    npats = ["1", "== 1", "> 0", "0..=5", "|x| x == 1"]
+    meanings = "(meanings (v %s (str %s)) (v %s (str %s)) (v %s (int 1)) (v %s (int 0)) (r %s (int 0) (int 5) true) (p %s (len eq 3)) (p %s (cmp eq (int 1))) (p %s (prefix %s)) (p %s (const true)) (m %s %s) (m %s %s) (m %s %s))" % (
+        tgen.hexs('"abc"'), tgen.hexs("abc"), tgen.hexs('"x"'), tgen.hexs("x"), tgen.hexs("1"), tgen.hexs("0"), tgen.hexs("0..=5"),
+        tgen.hexs(tgen.squash("|x| x.len() == 3")), tgen.hexs(tgen.squash("|x| x == 1")), tgen.hexs(tgen.squash('Pre("ab")')), tgen.hexs("ab"), tgen.hexs("a.c"),
+        tgen.hexs("borrow_mut"), tgen.hexs("id"), tgen.hexs("try_lock"), tgen.hexs("id"), tgen.hexs("unwrap"), tgen.hexs("id"))
+    for (acc, fld) in (("c.borrow_mut()", "c"), ("m.try_lock().unwrap()", "m")):
+        for sp_ in spats:
+            for np_ in npats:
+                for order in (0, 1):
+                    parts = ["%s.s: %s" % (acc, sp_), "%s.n: %s" % (acc, np_)]
+                    if order:
+                        parts.reverse()
+                    for shell in ("W { %s, .. }", "_ { %s, .. }"):
+                        c = t3.Case()
+                        c.id = k
+                        k += 1
+                        c.forms = {"guard-temporaries": 1}
+                        c.perturbed = False
+                        c.meanings = meanings
+                        t3.finish_case(c, decl, "W", val, sx, shell % ", ".join(parts))
+                        cases.append(c)
+    return cases
+
+
 def eq_literal_text_cases(rng, _n):
     """`==` / `!=` with expected expressions whose printed text contains blanks and `::` inside string
     literals: the label must show the expression as written."""
@@ -301,6 +341,7 @@ def check(ck, aspect, theorems, t2_parts=("body", "status", "validity")):
                                 ("set-history", set_history_cases, "matching set assertions after earlier set assertions on the same thread"),
                                 ("map-wildcard-value", map_wild_cases, "map entries whose value pattern is `_`: the key is still required"),
                                 ("wildcard-struct-sibling", wildcard_shadow_cases, "a wildcard struct next to a sibling field of the same name"),
+                                ("guard-temporaries", guard_temp_cases, "field paths through guard-returning methods: each assertion releases its borrow before the next"),
                                 ("eq-literal-text", eq_literal_text_cases, "expected expressions with blanks and `::` inside string literals"),
                                 ("range-boundary", range_boundary_cases, "integer and float ranges against values at and next to every bound"),
                                 ("c10-macro", set_palette_cases, "set patterns from a palette of element patterns over every listed order of small collections")):
